@@ -317,6 +317,28 @@ def run(chk: core.Check, replay=None) -> None:
             chk.stratum("error_fields_compared_with_the_logged_search")
         if case["cfg"].get("cMaxIterations"):
             chk.stratum("small_iteration_cap_" + info["outcome"].split(":")[0])
+    # ---- the iteration cap reached with the last error JUST above the accuracy (placed from a dry run of the same zeroing with
+    #      the documented budget: cap = 2 trials, accuracy = a fifth of the error of the second trial): an error is due, not an angle
+    rng2 = random.Random(chk.seed * 41 + 7)
+    placed = 0
+    for j in range(12):
+        if placed >= (12 if thorough else 3):
+            break
+        case = gen_case(rng2, 7 * j, False)      # (7j: never the small-cap variant, rotating look angles)
+        case["cfg"] = {"max_calc_step_size_feet": 2.0}
+        case["shot"].pop("powder", None)
+        _, dry = run_case(case, 0)
+        errs = dry.get("error_tail_ft") or []
+        if dry["outcome"] != "Returned" or not (3 <= (dry["iterations"] or 0) <= 6) or errs[1] <= 0:
+            continue
+        case2 = dict(case, cfg={"max_calc_step_size_feet": 2.0, "cMaxIterations": 2, "cZeroFindingAccuracy": errs[1] / 5.0})
+        n += 1
+        ls, info = run_case(case2, n)
+        lines += ls
+        infos[n] = info
+        placed += 1
+        chk.count(1, ("placed-cap", j))
+        chk.stratum("cap_reached_with_error_just_above_accuracy")
     # ---- a calculator with a history: after a zero on one sight line, a zero on a very different one (steep downhill, then long and
     #      level from a low station; steep uphill, then downhill; twice the same) - each second zeroing gives exactly what a fresh
     #      calculator gives, and in particular does not fail
@@ -349,7 +371,7 @@ def run(chk: core.Check, replay=None) -> None:
     chk.sample({k: v for k, v in infos[1].items()})
     chk.sample({"trace_lines": lines[:4]})
     chk.require_strata(["zero_after_a_zero_on_another_sight_line", "unreachable_below_the_altitude_floor", "reachable", "unreachable", "look_level", "look_mild", "look_steep",
-                        "miss_observed", "error_fields_compared_with_the_logged_search", "previous_zero_nonzero", "previous_zero_far_from_the_new_one", "tangent_based_preferred_angle_on_inclined_line", "small_iteration_cap_ZeroErr", "wind_changes_inside_zero_distance", "steep_and_long"])
+                        "miss_observed", "cap_reached_with_error_just_above_accuracy", "error_fields_compared_with_the_logged_search", "previous_zero_nonzero", "previous_zero_far_from_the_new_one", "tangent_based_preferred_angle_on_inclined_line", "small_iteration_cap_ZeroErr", "wind_changes_inside_zero_distance", "steep_and_long"])
     chk.exhaustive = False
     chk.rule.append("seeded un-canted shots (G1/G7/.. tables, 600-4000 fps, sight heights -2..6 in, look angles 0, +-5..+-59 deg, 0-2 "
                     "winds, previously stored zero 0 / small / large / negative) x zero distances 10 yd - 1500 yd, plus unreachable "
